@@ -5,6 +5,7 @@
 pub mod c01bp;
 pub mod c04net;
 pub mod c09;
+pub mod c10w;
 pub mod c13;
 pub mod c13s;
 pub mod c15;
